@@ -178,6 +178,44 @@ func apiRun(tr *kTrace, id string, salt int64) {
 	tr.emit(map[string]any{"ev": "aend"})
 }
 
+// apiDoorGrow: doorkeeper on and enough resident keys for the per-shard filters to be cleared and
+// rebuilt (they grow with the shard's map and are reset after enough first sightings). A Set may be
+// refused only for a key the cache does not hold: every key that a Get has just found must be
+// accepted when it is written again.
+func apiDoorGrow(tr *kTrace, id string, salt int64) {
+	rnd := rand.New(rand.NewSource(salt))
+	n := 2500 + rnd.Intn(1500)
+	c, err := theine.NewBuilder[int, int](int64(n + 500)).Doorkeeper(true).Build()
+	if err != nil {
+		tr.emit(map[string]any{"ev": "aerr", "id": id})
+		return
+	}
+	defer c.Close()
+	for k := 1; k <= n; k++ {
+		c.Set(k, k, 1)
+		c.Set(k, k, 1)
+		if rnd.Intn(5) == 0 {
+			c.Set(k, k+1, 1)
+		}
+	}
+	c.Wait()
+	resident, refused := 0, 0
+	first := []int{}
+	for k := 1; k <= n; k++ {
+		if _, ok := c.Get(k); !ok {
+			continue
+		}
+		resident++
+		if !c.Set(k, k+7, 1) {
+			refused++
+			if len(first) < 5 {
+				first = append(first, k)
+			}
+		}
+	}
+	tr.emit(map[string]any{"ev": "adoor", "id": id, "keys": n, "resident": resident, "refused": refused, "first": first})
+}
+
 func TestVerif_Api(t *testing.T) {
 	out := os.Getenv("VERIF_OUT")
 	if out == "" {
@@ -193,5 +231,8 @@ func TestVerif_Api(t *testing.T) {
 	base := int64(apiEnvInt("VERIF_SEED", 1)) * 1000003
 	for i := 0; i < n; i++ {
 		apiRun(tr, fmt.Sprintf("api%d", i), base+int64(i))
+	}
+	for i := 0; i < 1+n/20; i++ {
+		apiDoorGrow(tr, fmt.Sprintf("door%d", i), base+int64(7000+i))
 	}
 }
